@@ -472,7 +472,8 @@ inline Op opTakeEditPutBack(int r, size_t fi, const std::string& what, int vs) {
         Frame fresh = buildFrame(sh, vs); FrSnap want = s.o.frames[fi]; FrSnap in = intendedFrame(sh, vs);
         if (what == "newpts") { g.add(fresh.points()); want.pts = in.pts; } else if (what == "newan") { g.add(fresh.analogs()); want.subs = in.subs; }
         ci.given = want; w.R[r] = g; w.Rset[r] = true;
-        w.c->frame(w.R[r], fi);
+        try { w.c->frame(w.R[r], fi); }
+        catch (...) { w.R[r] = Frame(); w.Rset[r] = false; throw; }   // not handed over: the copy still shares with the stored frame (that is what a Frame copy is); the caller drops it
     };
     return o;
 }
